@@ -176,6 +176,13 @@ def check_c06_scratch(chk, v):
                             and p["args"][0][0] == "idx":
                         # assignment to a std::complex element is an operator call
                         p = dict(p, kind="store", lv=p["args"][0], op="=", val=p["args"][1] if len(p["args"]) > 1 else None)
+                    if p["kind"] == "store" and p["lv"][0] == "idx" and p["lv"][1] == buf and not p["loops"] and not p["guards"]:
+                        # a single element (a peeled first / last slot); the end value of a counted loop over [0, X) is X (X >= 0)
+                        ix = sym.rewrite(p["lv"][2], {st_: st_[2][1] for st_ in sym.subterms(p["lv"][2])
+                                                      if st_[0] == "call" and st_[1] == "$loop_end" and st_[2][0] == ZERO
+                                                      and st_[2][2] == I(1) and st_[2][3] == I(0)})
+                        sets.append((1, to_h(ix, vals, nparam), I(1)))
+                        continue
                     if p["kind"] == "store" and p["lv"][0] == "idx" and p["lv"][1] == buf and len(p["loops"]) == 1:
                         lp = p["loops"][0]
                         lin = sym.linear_in(p["lv"][2], lp["var"])
@@ -234,6 +241,10 @@ def check_c06_scratch(chk, v):
                 for st, off, cnt in sh:
                     merged = False
                     for k, (st2, off2, cnt2) in enumerate(base):
+                        if cnt == I(1) and sym.sub(off, sym.mul(I(st2), cnt2)) == off2:
+                            base[k] = (st2, off2, sym.add(cnt2, I(1)))       # a single element continues any lattice it lands on
+                            merged = True
+                            break
                         if st2 == st and sym.sub(off, sym.mul(I(st), cnt2)) == off2:
                             base[k] = (st2, off2, sym.add(cnt2, cnt))
                             merged = True
@@ -383,6 +394,27 @@ def cover_1d(terms, n, nmin=1):
     -> ("proved" | "refuted" | "unknown", detail)"""
     from math import gcd
     L, D = 1, 0
+
+    def simp(t):
+        """conditional terms whose condition compares n with a constant are decided by n >= nmin  (n > 0 ? X : 0  ->  X)"""
+        if not isinstance(t, tuple) or not t:
+            return t
+        m = {}
+        for st in sym.subterms(t):
+            if st[0] == "cond" and st[1][0] == "op" and st[1][1] in ("<", "<=", ">", ">=") and n in (st[1][2], st[1][3]):
+                other = st[1][3] if st[1][2] == n else st[1][2]
+                c = sym.const_value(other)
+                if c is None:
+                    continue
+                op = st[1][1] if st[1][2] == n else {"<": ">", "<=": ">=", ">": "<", ">=": "<="}[st[1][1]]
+                # truth of (n op c) for every n >= nmin, when it is the same for all of them
+                if op == ">" and nmin > c or op == ">=" and nmin >= c:
+                    m[st] = st[2]
+                elif op == "<" and nmin >= c or op == "<=" and nmin > c:
+                    m[st] = st[3]
+        return sym.rewrite(t, m) if m else t
+    terms = [((dict(tm[0], lo=simp(tm[0]["lo"]), hi=simp(tm[0]["hi"])), simp(tm[1]), tm[2]) +
+              ((([simp(g_) for g_ in tm[3]]),) if len(tm) > 3 else ())) for tm in terms]
     norm = []
     guards_of = {}
     terms3 = []
@@ -473,3 +505,31 @@ def cover_1d(terms, n, nmin=1):
                 what.append("terms enter with different signs")
             return "refuted", "for n = %d: %s" % (nv, "; ".join(what))
     return "proved", "indices are exactly [0, n), once each, for every n (period %d, checked n = %d..%d)" % (L, nmin, nmin + D + 2 * L + 1)
+
+
+def filled_by(ps, arr, n, value_ok, want_op="="):
+    """Is every element of arr[0..n) assigned exactly once by store pieces whose value passes value_ok(value term, index term)?
+    ps: store pieces writing arr[...] (each in at most one loop, possibly guarded).  -> (status, detail, number of statements)
+    status: "proved" | "refuted" | "unknown"."""
+    terms, n_st = [], 0
+    for p in ps:
+        if p["kind"] != "store" or p["lv"][0] != "idx" or p["lv"][1] != arr:
+            continue
+        n_st += 1
+        if p["op"] != want_op:
+            return "refuted", "statement at line %s uses '%s'" % (p["line"], p["op"]), n_st
+        why = value_ok(p["val"], p["lv"][2])
+        if why:
+            return "refuted", "statement at line %s: %s" % (p["line"], why), n_st
+        if len(p["loops"]) > 1:
+            return "unknown", "statement at line %s is in a loop nest" % p["line"], n_st
+        if p["loops"]:
+            terms.append((p["loops"][0], p["lv"][2], 1, list(p["guards"])))
+        else:
+            u = sym.sym("u@%s" % p["line"])
+            pos = p["lv"][2]
+            terms.append(({"var": u, "lo": pos, "cmp": "<", "hi": sym.add(pos, I(1)), "step": I(1), "l": p["line"]}, u, 1, list(p["guards"])))
+    if not terms:
+        return "refuted", "no statement assigns the array", 0
+    st, det = cover_1d(terms, n)
+    return st, det, n_st
